@@ -275,7 +275,7 @@ def tag_matches(tag, v):
     """symbolic results of the model: sqrt:n/d, root:N:n/d"""
     if tag.startswith('sqrt:'):
         q = Fraction(tag[5:])
-        if not isinstance(v, float) or v < 0:
+        if not isinstance(v, float) or v < 0 or math.isnan(v) or math.isinf(v):
             return False
         if q == 0:
             return v == 0.0
@@ -283,7 +283,7 @@ def tag_matches(tag, v):
     if tag.startswith('root:'):
         _, n, q = tag.split(':')
         n, q = int(n), Fraction(q)
-        if not isinstance(v, float) or v <= 0:
+        if not isinstance(v, float) or v <= 0 or math.isnan(v) or math.isinf(v):
             return False
         return abs(Fraction(v) ** n - q) <= q * Fraction(1, 10 ** 9)
     return None
@@ -430,12 +430,12 @@ def judge(fn, exp, res, exact, scale):
         return is_num(v) and Fraction(v) in exp[1]
     if isinstance(exp, tuple) and exp[0] == 'sq':
         q = exp[1]
-        if not isinstance(v, float) or v < 0:
+        if not isinstance(v, float) or v < 0 or v != v or v in (float('inf'),):
             return False
         return v == 0.0 if q == 0 else abs(Fraction(v) ** 2 - q) <= q * Fraction(1, 10 ** 9)
     if isinstance(exp, tuple) and exp[0] == 'pow':
         _, n, q = exp
-        if not isinstance(v, float) or v <= 0:
+        if not isinstance(v, float) or v <= 0 or v != v or v in (float('inf'),):
             return False
         return abs(Fraction(v) ** n - q) <= q * Fraction(1, 10 ** 9)
     return num_equal(v, exp, exact, scale)
@@ -448,6 +448,8 @@ def same_result(r1, r2, exact, scale):
     a, b = r1[1], r2[1]
     if not (is_num(a) and is_num(b)):
         return a == b
+    if any(isinstance(x, float) and (x != x or x in (float('inf'), float('-inf'))) for x in (a, b)):
+        return repr(a) == repr(b)
     if exact:
         return Fraction(a) == Fraction(b)
     return abs(Fraction(a) - Fraction(b)) <= Fraction(1e-12) * max(abs(Fraction(a)), Fraction(scale))
@@ -725,6 +727,14 @@ def gen_stat(rng, fn=None):
         r = rng.random()
         if r < 0.8:
             xs = positive(xs)
+        if rng.random() < 0.25:
+            # many items of large or of tiny magnitude: the mean is an ordinary number although the product (the sum of
+            # reciprocals) of the items is far outside the range of doubles
+            n = rng.choice([12, 20, 30, 40])
+            if rng.random() < 0.5:
+                xs = [rng.randrange(10 ** 8, 10 ** 9) if rng.random() < 0.7 else float(rng.randrange(10 ** 8, 10 ** 9)) + 0.5 for _ in range(n)]
+            else:
+                xs = [rng.randrange(1, 4096) / float(2 ** 40) for _ in range(n)]
     if fn == 'PRODUCT' and n > 12:
         xs = [x if abs(x) <= 30 else rng.randint(-9, 9) for x in xs]
     via = rng.choice(['lit', 'var', 'fn'])
